@@ -21,6 +21,8 @@ pub fn members(names: &[&str], args: &Args, ev: &mut Ev) -> Vec<wgen::Member> {
             "names" => fam::names_family(args.tier.g()),
             "reach" => fam::reach_family(args.tier.g()),
             "leb" => fam::leb_family(args.tier.g()),
+            "idshift" => fam::idshift_family(),
+            "ctrl" => fam::ctrl_family(args.tier.g()),
             other => {
                 ev.note(format!("unknown family {}", other));
                 vec![]
